@@ -63,6 +63,7 @@ func checkC18(r *Run) propMeta {
 		r.Fatal("load: %v", err)
 	}
 	p := r.MustPkg("retriever")
+	retrieverPkg = p
 	decls := FuncDecls(p)
 	info := p.TypesInfo
 
@@ -93,7 +94,7 @@ func checkC18(r *Run) propMeta {
 	// ---- R1 phase tables
 	var pref map[string]bool
 	prefName := ""
-	for _, name := range []string{"fragmentPath", "verifyCollectionFragments", "Manifest.validate"} {
+	for _, name := range []string{"fragmentPath", roleName("verifyCollectionFragments"), "Manifest.validate"} {
 		fd := decls[name]
 		if fd == nil {
 			r.Undecide("C18-R1: %s not found", name)
@@ -247,7 +248,20 @@ func checkC18(r *Run) propMeta {
 	} else {
 		r.Undecide("C18-R3: compressedJSONLinesWriter.Close not found")
 	}
-	if vc := decls["verifyChecksumValues"]; vc != nil {
+	var vc *ast.FuncDecl
+	for _, cand := range declsWhere(p, func(fd *ast.FuncDecl) bool {
+		found := false
+		ast.Inspect(fd.Body, func(n ast.Node) bool {
+			if cl, ok := n.(*ast.CompositeLit); ok && namedName(info.TypeOf(cl)) == "ChecksumMismatchError" {
+				found = true
+			}
+			return !found
+		})
+		return found
+	}) {
+		vc = cand // the function that can report a checksum mismatch (today verifyChecksumValues)
+	}
+	if vc != nil {
 		// both an integer-typed and a string-typed parameter pair are compared with != and the branch returns an error
 		intCmp, strCmp := false, false
 		ast.Inspect(vc.Body, func(n ast.Node) bool {
@@ -362,7 +376,7 @@ func checkScanTotals(r *Run, p *packages.Package) {
 	oa.returnSummaries = true
 	// the verifier's "actual" side: everything reachable from collectDatabaseMetrics
 	verifierSide := map[*types.Func]bool{}
-	if root := cg.Func(modPath + "/retriever.collectDatabaseMetrics"); root != nil {
+	if root := cg.Func(modPath+"/retriever."+roleName("collectDatabaseMetrics")); root != nil {
 		for fn := range cg.Reach([]*types.Func{root}, nil) {
 			verifierSide[fn] = true
 		}
@@ -476,7 +490,7 @@ func checkScanTotals(r *Run, p *packages.Package) {
 func checkInjectiveNaming(r *Run, p *packages.Package) {
 	info := p.TypesInfo
 	decls := FuncDecls(p)
-	if fd := decls["graphDirectoryName"]; fd != nil && fd.Body != nil {
+	if fd := decls[roleName("graphDirectoryName")]; fd != nil && fd.Body != nil {
 		lossy := ""
 		pos := fd.Pos()
 		ast.Inspect(fd.Body, func(n ast.Node) bool {
